@@ -142,6 +142,13 @@ func (w *World) pickBasket(label string) (string, *basketapi.Basket) {
 	if d, ok := w.phantom(label, w.phBaskets); ok {
 		return d, nil
 	}
+	if d, ok := w.branchNew(label, w.brNew.baskets); ok {
+		for _, b := range w.S.Baskets {
+			if b.BasketDenom == d {
+				return d, b
+			}
+		}
+	}
 	if len(w.S.Baskets) > 0 && !w.offState(label) {
 		b := pickOf(w, label, w.S.Baskets)
 		return b.BasketDenom, b
@@ -733,6 +740,9 @@ func (w *World) contentHash(label string) *data.ContentHash {
 		return &data.ContentHash{Raw: &data.ContentHash_Raw{Hash: h, DigestAlgorithm: 1, FileExtension: pickOf(w, label+"sibext", []string{"pdf", "csv", "json", "rdf", "txt"})}}
 	}
 	ch := w.contentHashPool(label)
+	if w.intn(label+"?coll", 8) == 7 {
+		ch = w.collidingHash(label, false)
+	}
 	if len(w.bulkGraphs) > 0 && w.chance(label+"?bulk", 20) {
 		ch = &data.ContentHash{Graph: w.graphHash(label + "bg")}
 	}
@@ -765,6 +775,9 @@ func (w *World) graphHash(label string) *data.ContentHash_Graph {
 	if len(w.bulkGraphs) > 0 && w.chance(label+"?bulk", 35) {
 		g := *w.bulkGraphs[w.intn(label+"bulk", len(w.bulkGraphs))]
 		return &g
+	}
+	if w.intn(label+"?coll", 8) == 7 {
+		return w.collidingHash(label, true).Graph
 	}
 	n := 6
 	if w.Profile != nil && w.Profile.HashPool > 0 {
@@ -825,4 +838,35 @@ func genRegisterResolver(w *World) sdk.Msg {
 		signer = w.anyAcct("anysigner")
 	}
 	return &data.MsgRegisterResolver{Signer: w.AddrStr("s", signer), ResolverId: id, ContentHashes: hs}
+}
+
+// SeededHash is a content hash determined by a number: graphs for even seeds, raw pdf files for odd ones.
+func SeededHash(seed uint32) *data.ContentHash {
+	h := make([]byte, 32)
+	for j := range h {
+		h[j] = byte(0xC0 + j)
+	}
+	h[0], h[1], h[2], h[3] = byte(seed>>24), byte(seed>>16), byte(seed>>8), byte(seed)
+	if seed%2 == 0 {
+		return &data.ContentHash{Graph: &data.ContentHash_Graph{Hash: h, DigestAlgorithm: 1, CanonicalizationAlgorithm: 1}}
+	}
+	return &data.ContentHash{Raw: &data.ContentHash_Raw{Hash: h, DigestAlgorithm: 1, FileExtension: "pdf"}}
+}
+
+// CollidingSeeds are pairs of SeededHash seeds whose IRIs agree in the first four bytes of the production data-id
+// hasher (BLAKE2b-64, found by a birthday search, TestFindCollisions): anchoring both members of a pair takes the
+// collision path of the real hasher, which random content never does. The first two pairs are graphs.
+var CollidingSeeds = [][2]uint32{{31060, 81654}, {32382, 227066}, {150415, 244034}, {17001, 58695}, {137861, 271445}}
+
+// collidingHash returns a member of the history's pair (one pair per history, so that both members meet).
+func (w *World) collidingHash(label string, graphOnly bool) *data.ContentHash {
+	if w.collPair == 0 {
+		w.collPair = 1 + w.intn(label+"collpair", len(CollidingSeeds))
+	}
+	pair := CollidingSeeds[w.collPair-1]
+	if graphOnly && w.collPair > 2 {
+		pair = CollidingSeeds[(w.collPair-1)%2]
+	}
+	w.Flags["production-hasher-colliding-pair-used"] = true
+	return SeededHash(pair[w.intn(label+"collmember", 2)])
 }
